@@ -114,6 +114,7 @@ class HTTPProtocol(BaseGopherProtocol):
         elif (not entry.gethost()) and (not entry.getport()):
             # It's a link to our own server.  Make it as such.  (relative)
             url = urllib.parse.quote(entry.getselector(), errors="surrogateescape")
+            url = url or "/"  # An empty selector is the root menu, not this page.
         else:
             # Link to a different server.  Make it a gopher URL.
             url = entry.geturl(self.server.server_name, self.server.server_port)
